@@ -150,6 +150,8 @@ Symmetrizer::Symmetrizer(const IndexClassification &IndexInfo, const IndexHamilt
 const DynamicIndexCombination& Symmetrizer::generateTrivialCombination(ParticleIndex N)
 {
     static DynamicIndexCombination trivial(N);
+    // The static object is sized by the first call only: resize it when a later call asks for another number of indices.
+    if (trivial.getNumberOfIndices() != N) trivial = DynamicIndexCombination(N);
     for (ParticleIndex i=0; i<N; ++i) trivial[i] = i;
     return trivial;
 }
